@@ -278,40 +278,43 @@ LATER = {
            "flush() (a metric call must not flush).",
     "C03": "Also: sinks that answer Ok(n) for arbitrary n; an error handler that itself makes a failing quiet send on the same "
            "client (family XN); two threads failing at once while the first handler invocation is still running (XT); sink "
-           "errors whose payload is one of the crate's own MetricErrors.",
+           "errors whose payload is one of the crate's own MetricErrors.  The position of with_error_handler in the client builder chain varies with the case.",
     "C06": "Also: the writer histories - fault histories included - driven through a StatsdClient over a user-written buffered "
            "sink (family CW: send_metric(&Counter::from(text)), StatsdClient::flush).  The clauses proved for every fault script (exactly once, order, own emit, a flush that returns Ok has written everything acknowledged before it, flushing again writes nothing) are evaluated on the fault histories of family CW too; metrics ending in LF or in the terminator's own bytes.",
     "C07": "Also: family CW (histories through StatsdClient) and family UR (the real UDP sinks over a socket connected to a "
-           "closed port: ECONNREFUSED on every other send, then a listener appears) - every call must return.",
+           "closed port: ECONNREFUSED on every other send, then a listener appears) - every call must return.  Outages in which the listener's socket file stays (ECONNREFUSED), family c.",
     "C10": "Also: the usize an accepted emit returns is the metric's byte length (non-ASCII payloads); the bound of large "
            "queues (capacities 70 000, 2^20, 2^20+3: worker parked, capacity + k emits, exactly capacity accepted).",
     "C11": "Also: unbroken runs of 17-70 panics; a panic soak of 28 000 panics over the life of one sink (own process).",
     "C13": "Also: statistics read in the middle of a history (op s: reading puts nothing on the wire), UDP sockets connected "
            "to a closed port (family UR); capacities above one IPv4 datagram (an emit that fits the configured capacity puts "
-           "nothing on the wire); Unix paths that cannot be socket addresses (family XL).  Unix paths that are not valid UTF-8 with a second listener at the lossy name (families XN / BXN).",
+           "nothing on the wire); Unix paths that cannot be socket addresses (family XL).  Unix paths that are not valid UTF-8 with a second listener at the lossy name (families XN / BXN).  Outages with the socket file left behind (op c); emits made by a destructor of an unwinding thread (op P); an IPv4 sender whose first resolved address is IPv6 (UA4); address arguments that yield no address (UE).",
     "C14": "Also: statistics read in the middle of a history equal the figures of the datagrams received so far; families UR "
-           "and XL (sends refused before they reach the OS are dropped packets too).",
+           "and XL (sends refused before they reach the OS are dropped packets too).  Family UA4 (every send to an unreachable first address is one dropped packet; the second address is no fallback).",
     "C02": "Also: the value section of every standalone constructor's text against the canonical numeral; Display of every "
            "MetricValue variant against join ':' (value_texts v) (wire family V).",
-    "C05": "Also: metrics ending in white space, LF or the writer's own (possibly multi-byte) terminator.",
+    "C04": "Also: the position of with_error_handler in the client builder chain (first / between / after the default tags / "
+           "last) varies with the case.",
+    "C05": "Also: metrics ending in white space, LF or the writer's own (possibly multi-byte) terminator.  The real buffered UDP sink with more buffered than a datagram can carry and a 70 000-byte metric (families UO, BU 70000).",
     "C08": "Also: wrapped sinks answering Ok(k) for arbitrary k (Rn<k>); family QD: scripted histories with ANOTHER queuing "
            "sink alive in the process (full with its stop pending / respawned after a panic), which must deliver and be "
-           "released too.",
+           "released too.  Producers that are worker threads of a queuing sink (family QW: chained sinks, a handler emitting through a clone).",
     "C09": "Also: family QD (two queuing sinks in one process: the other one full with its stop marker pending for the whole "
            "history).",
-    "C15": "Also: soaks of 8-12 producers released together by a barrier (lost updates of a counter need overlapping increments).",
+    "C12": "Also: calls made by a destructor while the calling thread unwinds from a caught panic (ops G / g).",
+    "C15": "Also: soaks of 8-12 producers released together by a barrier (lost updates of a counter need overlapping increments).  The counters at the quiescent end of the panic soaks.",
     "C16": "Also: a wrapped sink that answers Ok(0) (accepted: the handler stays silent); an unscripted flush of the wrapped "
            "sink answers with an error of its own (a worker that flushes shows up in the handler's record); failures that carry a "
            "raw OS errno, the same one several times in a row.  Wrapped sinks answering Ok(k) for arbitrary k (release outcome Rn<k>).",
     "C17": "Also: the holder's read functions get_global_default / is_global_default_set before, between and after the sets, on "
-           "the calling and on fresh threads; a macro must not flush the sink.",
+           "the calling and on fresh threads; a macro must not flush the sink.  Invocations made by a destructor while its thread unwinds from a panic (step U).",
     "C18": "Also: programs that format the holder with {:?} under the scheduler (a trait impl is a fourth access path); the "
            "global holder through set_global_default / get_global_default / is_global_default_set in fresh processes; two "
            "compile-fail witnesses for the bounds of the unsafe Send/Sync impls.  Every schedule the model enumerates for small programs also runs, each in a fresh child process, on the process-wide holder through the three free functions under the blocking tracer (family G).",
     "C19": "Also: the real buffered socket sinks with their statistics read while lines are buffered (reading is not an "
            "occasion to write).",
     "C20": "Also: Debug formatting (plain and pretty) of every sink and of the client; the writer's fault histories in both "
-           "build profiles.  Display of every MetricValue variant, empty packed lists included (wire family V).",
+           "build profiles.  Display of every MetricValue variant, empty packed lists included (wire family V).  The three UDP constructors with an address argument that yields no address (UE).",
 }
 
 
